@@ -90,8 +90,13 @@ CLAIMS = {
              "either form in front of any text, in any lexer state, is skipped as one item with no token and no diagnostic, and "
              "- by the line/offset parametricity of the whole lexer model (every function commutes with shifting line and raw "
              "offset) - the whole token sequence of the text follows with identical kinds, values and columns, every line one "
-             "lower.  Not proved: splices between LATER tokens and respelling composed into equality of whole token sequences, and "
-             "the diagnostics clause - these are searched: "
+             "lower; (4) a splice of either form BETWEEN two lexemes of a file (C12_splice_between_lexemes, Proofs/SpliceBetween.v): "
+             "for prefixes of simple lexemes, block comments, // comments and plain strings under the decidable lexs_ok2 (the "
+             "lexeme before the splice is complete) and the decidable realignment condition (the part after the splice, up to "
+             "its next newline lexeme, ends in the shifted state) the sequences of token kinds and values are equal, the later "
+             "items one line lower - with an Example on a program behind the repository's 42 header.  Not proved: splices next "
+             "to other lexeme kinds (operators before the splice, character constants, multi-character operators), respelling "
+             "composed into equality of whole token sequences, and the diagnostics clause - these are searched: "
              "random subsets of punctuator occurrences respelled and random subsets of token boundaries spliced in conforming / "
              "violating programs and lexeme sequences, (kind, value) sequences compared; braces/brackets respelled in whole "
              "programs, diagnostics compared in (code, line).",
@@ -210,13 +215,20 @@ CLAIMS = {
              "macro checks are kept, for every #define line); both formats show the same views for all file lists, the humanized "
              "text is a function of the views and the colour switch, stripping colour sequences gives the uncoloured text, -o is "
              "never read; inline content (any content, CR/CRLF included) yields the same File and Context as a file of that name "
-             "holding it.  The hypotheses on the oracle are justified by reader tables (every syntactic read of debug / "
+             "holding it.  That colours / format / -o cannot influence the findings is proved from translated code: main()'s "
+             "option plumbing is translated statement by statement into a def/use program (Gen/OptFlow.v, fail closed), a generic "
+             "noninterference theorem (any statement semantics) shows that the heap - every File with its diagnostics -, the "
+             "file list and the exit state at the end of the analysis loop are identical for runs differing only in those "
+             "options, which reach only the formatter choice, the formatter call after the loop, its print and the final exit "
+             "(C16_analysis_independent_of_presentation); Context.__init__'s use of debug / added_value is translated and "
+             "proved equal to the model; the -f clause (both formats show the file's own verdict and a permutation of its "
+             "diagnostics) follows from C08's theorems.  The remaining hypotheses on the oracle are justified by reader tables (every syntactic read of debug / "
              "skip_define / the presentation options, the guard structure of the define check, the inline branch of main()) "
              "regenerated from the source on every run and proved equal to reviewed lists (fail closed); they are not proved of "
              "the rule bodies.  Search: conforming and violating files x option sets through the real main(), both formats parsed "
              "back and compared with the baseline run.",
         ref="DESIGN.md 4.16", technique="Rocq proof (generic engine + option model, reader tables from source) + option-matrix differential runs of main()",
-        note=NOTE + "Modelled, not verified: argparse, open()'s decoding. Tested only: that printed text parses back to the views."),
+        note=NOTE + "Modelled, not verified: argparse, open()'s decoding. Table-justified: rule bodies read the debug level only to raise or print; the skip_define guard structure; the translator's def/use conventions. Tested only: that printed text parses back to the views."),
     "C01": dict(
         text="PARTIAL (the full statement - a complete model of all 39 checks over the whole grammar - is out of reach and is kept "
              "visible, unproved, in Props/C01.v).  Proved for the code set K = {INVALID_HEADER, the six HEADER_PROT_* codes, the 18 "
